@@ -35,6 +35,7 @@ MC_IdxPool == <<{", ".join(map(str, idxpool))}>>
 MC_OpSet == {{{", ".join(json.dumps(o) for o in sorted(opset))}}}
 MC_FinalOps == {{{", ".join(json.dumps(o) for o in sorted(finalops))}}}
 MC_EnvDirs == {pool.tla_envdirs() if jets else "<< >>"}
+MC_PipeScale == {getattr(pool, "tla_pipescale", lambda: "<< >>")()}
 MC_ReplMaps == <<{", ".join(f"[src |-> {m['src']}, sub |-> <<{', '.join(map(str, m['sub']))}>>]" for m in replmaps)}>>
 MC_OpLevels == <<{", ".join("{" + ", ".join(json.dumps(o) for o in sorted(l)) + "}" for l in levels)}>>
 ====
@@ -57,6 +58,7 @@ def mc_cfg(pool, maxnodes, maxrank, maxdim, final_only=False, mikinds=("fixed", 
         "FinalOps <- MC_FinalOps",
         "OpLevels <- MC_OpLevels",
         "ReplMaps <- MC_ReplMaps",
+        "PipeScale <- MC_PipeScale",
         f"DumpFinalOnly = {'TRUE' if final_only else 'FALSE'}",
         'ChainMode = "' + ("off" if not chain else "loose" if chain is True else chain) + '"',
         "MiKinds = {" + ", ".join(json.dumps(k) for k in mikinds) + "}",
@@ -99,8 +101,16 @@ class World:
             o = opts.get(name, {})
             if "grad_of" in o:
                 obj = ufl.grad(byname[o["grad_of"]])  # data terminal: the gradient of another terminal
-            elif o.get("kind") in ("J", "K", "detJ", "I"):
-                obj = {"J": lambda: ufl.Jacobian(self.mesh), "K": lambda: ufl.JacobianInverse(self.mesh), "detJ": lambda: ufl.JacobianDeterminant(self.mesh), "I": lambda: ufl.Identity(tuple(shape)[0])}[o["kind"]]()
+            elif o.get("kind") in ("J", "K", "detJ", "I", "x", "vol", "h"):
+                obj = {
+                    "J": lambda: ufl.Jacobian(self.mesh),
+                    "K": lambda: ufl.JacobianInverse(self.mesh),
+                    "detJ": lambda: ufl.JacobianDeterminant(self.mesh),
+                    "I": lambda: ufl.Identity(tuple(shape)[0]),
+                    "x": lambda: ufl.SpatialCoordinate(self.mesh),
+                    "vol": lambda: ufl.CellVolume(self.mesh),
+                    "h": lambda: ufl.Circumradius(self.mesh),
+                }[o["kind"]]()
             else:
                 V = ufl.FunctionSpace(self.mesh, LagrangeElement(cell, 2, tuple(shape)))
                 kind = o.get("kind", "coef")
@@ -154,6 +164,32 @@ class World:
         if kind == "prod":
             return t[m["img"][1]] * t[m["img"][2]]
         raise MachineryError("unknown image kind " + kind)
+
+    def pipeline(self, a, k):
+        """compute_form_data(a*dx, options k): the preprocessed integrand of the cell integral."""
+        from ufl.algorithms import compute_form_data
+
+        from .pipeenv import Preprocessed
+
+        ufl = self.ufl
+        opts = dict(self.pool.pipe_options[k])
+        form = a * ufl.dx(domain=self.mesh)
+        rec = getattr(self, "recorder", None)
+        try:
+            fd = compute_form_data(form, **opts)
+        except KeyboardInterrupt:
+            raise
+        except BaseException as exc:  # ArityMismatch derives from BaseException
+            if rec is not None:
+                rec.mark_raised()
+            raise RuntimeError(f"compute_form_data raised {type(exc).__name__}: {exc}") from exc
+        integrands = [i.integrand() for d in fd.integral_data for i in d.integrals]
+        if not integrands:
+            return Preprocessed(ufl.zero())
+        total = integrands[0]
+        for x in integrands[1:]:
+            total = total + x
+        return Preprocessed(total)
 
     def gateaux_coefficient(self, wname):
         """The coefficient (or a fixed component u[k], or a tuple) that derivative() differentiates by."""
@@ -229,6 +265,8 @@ def apply_op(w, op, args, mi):
         return ufl.variable(a)
     if op == "diff":
         return ufl.diff(a, b)
+    if op == "pipeline":
+        return w.pipeline(a, mi[0] - 1)
     if op == "replace":
         m = w.replmaps[mi[0] - 1]
         return ufl.replace(a, {w.terms[m["src"] - 1]: w.image(m)})
@@ -451,6 +489,12 @@ def observe(w, obj, is_bool=False):
         fi.append((w.idxname[c], d))
     if isinstance(obj, PointEval):
         return sh, fi, point_tables(w, obj)
+    if type(obj).__name__ == "Preprocessed":
+        from .pipeenv import RefEnv
+
+        if not hasattr(w, "refenvs"):
+            w.refenvs = [RefEnv(w, e) for e in range(len(w.envs))]
+        return sh, fi, [eval_table(obj.expr, env) for env in w.refenvs]
     tabs = [eval_table(obj, env) for env in w.envs]
     return sh, fi, tabs
 
